@@ -4,6 +4,7 @@ package main
 
 import (
 	"fmt"
+	"sort"
 	"strings"
 
 	"golang.org/x/tools/go/ssa"
@@ -171,13 +172,23 @@ func runC20(p *Prog, r *Report) {
 		should := p.Func("shouldStripSensitiveHeadersOnRedirect")
 		names := map[string]bool{}
 		guarded := true
+		foldsNames := true
+		nDel := 0
 		allCalls(strip, func(b *ssa.BasicBlock, c ssa.CallInstruction) {
 			f := c.Common().StaticCallee()
-			if f == nil || f.Name() != "Del" {
+			if f == nil || len(c.Common().Args) < 2 {
+				return
+			}
+			// a deletion: RequestHeader.Del, or a helper that hands its name parameter to it
+			if !(f.Name() == "Del" && recvTypeName(f) == "RequestHeader") && !passesParamToDel(f, 1) {
 				return
 			}
 			if s, ok := stringConst(c.Common().Args[1]); ok {
 				names[strings.ToLower(s)] = true
+			}
+			nDel++
+			if !deletesAnyCase(f, 2) {
+				foldsNames = false
 			}
 			// the deletions must not be reachable when the trust test said "trusted": they sit after the early return
 			okg := false
@@ -209,6 +220,27 @@ func runC20(p *Prog, r *Report) {
 			}
 		}
 		r.Check("R2", "the strip function deletes the six credential-bearing header names", len(missing) == 0, p.Pos(strip.Pos()), "missing: "+strings.Join(missing, ", ")+"; deletes: "+joinSorted(names))
+		r.Check("R2", "the strip function removes the names whatever their stored case", foldsNames && nDel > 0, p.Pos(strip.Pos()),
+			"a deletion goes through RequestHeader.Del alone, which matches stored names byte for byte when the caller disabled name normalisation: 'authorization: ...' set in lower case is sent on to the foreign host")
+		if dom := p.Func("isDomainOrSubdomainBytes"); dom == nil {
+			r.Undecided("R2", "isDomainOrSubdomainBytes", "anchor not found")
+		} else {
+			var uni []string
+			allCalls(dom, func(b *ssa.BasicBlock, c ssa.CallInstruction) {
+				f := c.Common().StaticCallee()
+				if f == nil || f.Pkg == nil {
+					return
+				}
+				switch f.Pkg.Pkg.Path() {
+				case "bytes", "strings", "unicode":
+					if strings.Contains(f.Name(), "Fold") || strings.HasPrefix(f.Name(), "ToLower") || strings.HasPrefix(f.Name(), "ToUpper") || strings.HasPrefix(f.Name(), "ToTitle") {
+						uni = append(uni, f.Pkg.Pkg.Path()+"."+f.Name()+" at "+p.Pos(c.Pos()))
+					}
+				}
+			})
+			r.Check("R2", "the host comparison of the trust predicate folds case over ASCII only", len(uni) == 0, p.Pos(dom.Pos()),
+				"uses "+strings.Join(uni, ", ")+": Unicode simple folding equates U+212A (Kelvin sign) with 'k' and U+017F with 's', so a redirect to a different host name is taken for the initial host and keeps the credentials")
+		}
 		r.Check("R2", "the strip function decides through the host-trust predicate", guarded && should != nil, p.Pos(strip.Pos()), "the deletions are not controlled by shouldStripSensitiveHeadersOnRedirect")
 		if should != nil {
 			// the predicate compares the redirect host with the anchor: both parameters reach isDomainOrSubdomainBytes
@@ -235,7 +267,7 @@ func runC20(p *Prog, r *Report) {
 		for _, b := range fn.Blocks {
 			for _, g := range guardsOf(b) {
 				if bo, ok := g.Cond.(*ssa.BinOp); ok && g.Pol {
-					if k, okc := constInt(bo.Y); okc && k == 303 {
+					if k, okc := constInt(bo.Y); okc && k == 303 && (len(seeOther) == 0 || seeOther[len(seeOther)-1] != b) {
 						seeOther = append(seeOther, b)
 					}
 				}
@@ -265,6 +297,61 @@ func runC20(p *Prog, r *Report) {
 				}
 			}
 		}
+		// every part of the teardown runs on every 303: from the head of the 303 branch no path reaches the next
+		// transmission (or a return) that goes round it
+		{
+			var head *ssa.BasicBlock
+			for _, b := range seeOther {
+				dominatesAll := true
+				for _, o := range seeOther {
+					if o != b && !b.Dominates(o) {
+						dominatesAll = false
+					}
+				}
+				if dominatesAll {
+					head = b
+				}
+			}
+			var cond []string
+			argsReset := false
+			steps := 0
+			if head != nil {
+				for _, b := range seeOther {
+					for _, in := range b.Instrs {
+						c, ok := in.(ssa.CallInstruction)
+						if !ok {
+							continue
+						}
+						f := c.Common().StaticCallee()
+						isTeardown := isCallTo(c, resetBody) || (f != nil && f.Name() == "Del")
+						if f != nil && f.Name() == "Reset" && recvTypeName(f) == "Args" {
+							if fa, isFA := c.Common().Args[0].(*ssa.FieldAddr); isFA && fieldName(fa.X.Type(), fa.Field) == "postArgs" {
+								isTeardown = true
+								argsReset = true
+							}
+						}
+						if !isTeardown {
+							continue
+						}
+						steps++
+						step := in
+						goal := func(i ssa.Instruction) bool {
+							if isReturn(i) {
+								return true
+							}
+							cc, ok := i.(ssa.CallInstruction)
+							return ok && cc == ssa.CallInstruction(doCall)
+						}
+						if hit, path := reachAvoiding(fn, head.Instrs[0], goal, func(i ssa.Instruction) bool { return i == step }, nil); hit != nil {
+							cond = append(cond, fmt.Sprintf("%s at %s can be skipped (%s)", calleeName(c), p.Pos(c.Pos()), strings.Join(blocksString(p, path), " > ")))
+						}
+					}
+				}
+			}
+			sort.Strings(cond)
+			r.Check("R4", name+": every step of the 303 teardown (body, post arguments, framing headers) runs on every 303", len(cond) == 0 && argsReset && head != nil && steps >= 5, p.Pos(fn.Pos()),
+				fmt.Sprintf("steps found: %d; post arguments reset: %v; conditional steps: %s - Request.Write also builds a body from post arguments and multipart forms when the body buffer is empty, so a guard that looks at the buffer alone lets such a body through to the follow-up GET", steps, argsReset, strings.Join(cond, "; ")))
+		}
 		r.Check("R4", name+": a 303 drops the body and its framing headers and rewrites the method to GET", hasReset && hasGet && dels["content-length"] && dels["content-type"] && dels["transfer-encoding"],
 			p.Pos(fn.Pos()), fmt.Sprintf("303 branch blocks: %d; ResetBody: %v; SetMethod(GET): %v; deleted: %s", len(seeOther), hasReset, hasGet, joinSorted(dels)))
 		// 301/302 on POST -> GET
@@ -285,4 +372,48 @@ func runC20(p *Prog, r *Report) {
 		})
 		r.Check("R4", name+": 301/302 on a POST rewrites the method to GET", okPost, p.Pos(fn.Pos()), "no SetMethod(GET) under IsPost() and status 301/302")
 	}
+}
+
+// passesParamToDel: f hands its parameter #idx to RequestHeader.Del.
+func passesParamToDel(f *ssa.Function, idx int) bool {
+	if f == nil || f.Blocks == nil || !inModule(f) || idx >= len(f.Params) {
+		return false
+	}
+	found := false
+	allCalls(f, func(b *ssa.BasicBlock, c ssa.CallInstruction) {
+		g := c.Common().StaticCallee()
+		if g != nil && g.Name() == "Del" && recvTypeName(g) == "RequestHeader" && len(c.Common().Args) >= 2 && c.Common().Args[1] == ssa.Value(f.Params[idx]) {
+			found = true
+		}
+	})
+	return found
+}
+
+// deletesAnyCase: f (or a module callee, to the given depth) compares stored
+// header names (argsKV.key) through the ASCII case-insensitive comparator.
+func deletesAnyCase(f *ssa.Function, depth int) bool {
+	if f == nil || f.Blocks == nil || depth < 0 {
+		return false
+	}
+	found := false
+	allCalls(f, func(b *ssa.BasicBlock, c ssa.CallInstruction) {
+		g := c.Common().StaticCallee()
+		if g == nil {
+			return
+		}
+		if g.Name() == "caseInsensitiveCompare" {
+			for _, a := range c.Common().Args {
+				if _, fv := loadedField(a); fv != nil && fv.Name() == "key" {
+					found = true
+				}
+			}
+			return
+		}
+		if inModule(g) && g != f && depth > 0 && recvTypeName(g) != "RequestHeader" {
+			if deletesAnyCase(g, depth-1) {
+				found = true
+			}
+		}
+	})
+	return found
 }
